@@ -410,7 +410,7 @@ class AbstractC2(Application):
         self.c2_connection_active = False
         self.c2_session = None
         self.keep_alive_inactivity = 0
-        self.keep_alive_frequency = 5
+        self.config.keep_alive_frequency = 5
         self.c2_remote_connection = None
         self.config.masquerade_port = PORT_LOOKUP["HTTP"]
         self.config.masquerade_protocol = PROTOCOL_LOOKUP["TCP"]
